@@ -1,2 +1,143 @@
-(* placeholder; replaced below *)
-From GPV Require Import Base.LinAlg Models.C16_missing.
+(* C16 — Missing observations (observation_nan_policy 'mask' / 'fill') behave as deletion.
+   Statement file: theorems, [exact lemma], Print Assumptions.  Nothing else.
+   Vocabulary (Models/C16_missing.v): a tensor with NaNs is [nvec = nat -> option car];
+   [is_obs] = ~isnan; [masked]/[mask_rows]/[mask_cols] = MaskedLinearOperator / boolean-mask
+   indexing; [fill_kernel], [zero_cols] = the 'fill' code; [del_mean]/[del_cov] = C01's
+   posterior of the data set with the NaN observations deleted. *)
+From Coq Require Import Arith List.
+From GPV Require Import Base.LinAlg Base.Exec Models.C01_posterior Models.C16_missing
+  Proofs.C16_missing.
+
+(* the deleted data set's train covariance is the masked operator the code solves with *)
+Theorem c16_deleted_train_covar_is_masked :
+  forall (K : Fld) n ob KJ S,
+    meq (nobs n ob) (nobs n ob) (train_covar (KJ_del n ob KJ) (S_del n ob S))
+        (masked n n ob ob (train_covar KJ S)).
+Proof. intros K. exact (@del_train_covar K). Qed.
+Print Assumptions c16_deleted_train_covar_is_masked.
+
+(* mask_is_deletion, mean: _mean_cache('mask') scattered into a NaN tensor, read back by
+   exact_predictive_mean('mask') through the cache's own NaN pattern = deletion mean.
+   All n, t, all NaN patterns. *)
+Theorem c16_mask_mean_is_deletion :
+  forall (K : Fld) n t KJ muJ Aoinv (y : nvec),
+    meq t 1 (pred_mean_mask n (Ksx n KJ) (sub n 0 muJ) (mean_cache_mask n Aoinv (offset muJ y)))
+            (del_mean n KJ muJ Aoinv y).
+Proof. intros K. exact (@mask_mean_is_deletion K). Qed.
+Print Assumptions c16_mask_mean_is_deletion.
+
+(* mask_is_deletion, covariance: holds for the formula WITH the train dimension masked
+   (fixes_proposed/C16_covar_mask.diff) ... *)
+Theorem c16_mask_cov_is_deletion :
+  forall (K : Fld) n t ob KJ Aoinv,
+    meq t t (cov_masked n ob KJ Aoinv) (del_cov n ob KJ Aoinv).
+Proof. intros K. exact (@mask_cov_is_deletion K). Qed.
+Print Assumptions c16_mask_cov_is_deletion.
+
+(* ... and is REFUTED for exact_predictive_covar as coded on the pinned tree (no mask: every
+   training row is used, NaN ones included).  Witness: n = 2, second target NaN, t = 1. *)
+Theorem c16_cov_as_coded_refuted :
+  exists (n t : nat) (KJ S Ainv Aoinv : @M QcF) (y : @nvec QcF),
+    symmetric (n + t) KJ /\
+    is_inverse n (train_covar KJ S) Ainv /\
+    is_inverse (nobs n (is_obs y)) (masked n n (is_obs y) (is_obs y) (train_covar KJ S)) Aoinv /\
+    ~ meq t t (cov_as_coded n KJ Ainv) (del_cov n (is_obs y) KJ Aoinv).
+Proof. exact cov_as_coded_refuted. Qed.
+Print Assumptions c16_cov_as_coded_refuted.
+
+(* fill_is_deletion, the key fact: with off-diagonal entries of missing rows/columns zeroed
+   (diagonal kept) the observed part of the solve is the solve of the deleted system, whatever
+   stands in the missing rows of the right-hand side (= any fill value).  Any n, any pattern,
+   any number p of right-hand sides. *)
+Theorem c16_fill_solve_observed :
+  forall (K : Fld) n p ob A Afinv Aoinv B,
+    is_inverse n (fill_kernel ob A) Afinv ->
+    is_inverse (nobs n ob) (masked n n ob ob A) Aoinv ->
+    meq (nobs n ob) p (mask_rows n ob (mmul n Afinv B)) (mmul (nobs n ob) Aoinv (mask_rows n ob B)).
+Proof. intros K. exact (@fill_solve_observed K). Qed.
+Print Assumptions c16_fill_solve_observed.
+
+(* zeroed test-train columns multiply the missing rows by zero *)
+Theorem c16_zero_cols_drop_missing :
+  forall (K : Fld) n t p ob T V,
+    meq t p (mmul n (zero_cols ob T) V) (mmul (nobs n ob) (mask_cols n ob T) (mask_rows n ob V)).
+Proof. intros K. exact (@zero_cols_mmul K). Qed.
+Print Assumptions c16_zero_cols_drop_missing.
+
+(* fill_is_deletion, mean: for ANY fill values fv (right-hand side) and fv' (cache read-back) *)
+Theorem c16_fill_mean_is_deletion :
+  forall (K : Fld) n t KJ muJ S Afinv Aoinv (y : nvec) fv fv',
+    let A := train_covar KJ S in let ob := is_obs y in
+    is_inverse n (fill_kernel ob A) Afinv ->
+    is_inverse (nobs n ob) (masked n n ob ob A) Aoinv ->
+    meq t 1 (pred_mean_fill n (Ksx n KJ) (sub n 0 muJ) (mean_cache_fill n Afinv (offset muJ y) fv) fv')
+            (del_mean n KJ muJ Aoinv y).
+Proof. intros K. exact (@fill_mean_is_deletion K). Qed.
+Print Assumptions c16_fill_mean_is_deletion.
+
+(* fill_is_deletion, covariance (repaired formula) *)
+Theorem c16_fill_cov_is_deletion :
+  forall (K : Fld) n t ob KJ S Afinv Aoinv,
+    let A := train_covar KJ S in
+    is_inverse n (fill_kernel ob A) Afinv ->
+    is_inverse (nobs n ob) (masked n n ob ob A) Aoinv ->
+    meq t t (cov_filled n ob KJ Afinv) (del_cov n ob KJ Aoinv).
+Proof. intros K. exact (@fill_cov_is_deletion K). Qed.
+Print Assumptions c16_fill_cov_is_deletion.
+
+(* policy_order_irrelevant: after ANY history h of predictions under mask/fill on one model
+   object (memo keyed by policy, as _mean_cache is), the next prediction under either policy
+   is the deletion mean *)
+Theorem c16_policy_order_irrelevant :
+  forall (K : Fld) n t KJ muJ S Afinv Aoinv (y : nvec) fv (h : list policy) (p : policy),
+    let A := train_covar KJ S in let ob := is_obs y in
+    is_inverse n (fill_kernel ob A) Afinv ->
+    is_inverse (nobs n ob) (masked n n ob ob A) Aoinv ->
+    meq t 1 (snd (predict_step n Aoinv Afinv (Ksx n KJ) (sub n 0 muJ) (offset muJ y) fv
+                    (predict_history n Aoinv Afinv (Ksx n KJ) (sub n 0 muJ) (offset muJ y) fv h) p))
+            (del_mean n KJ muJ Aoinv y).
+Proof. intros K. exact (@policy_order_irrelevant K). Qed.
+Print Assumptions c16_policy_order_irrelevant.
+
+(* MLL under 'mask': quadratic form and determinant of the masked marginal are those of the
+   deleted data set (so the un-normalised log marginal coincides) ... *)
+Theorem c16_mll_mask_is_deletion :
+  forall (K : Fld) n KJ muJ S Aoinv (y : nvec),
+    let ob := is_obs y in
+    mll_quad_mask n muJ Aoinv y = mll_quad_del n muJ Aoinv y
+    /\ det (nobs n ob) (masked n n ob ob (train_covar KJ S))
+       = det (nobs n ob) (train_covar (KJ_del n ob KJ) (S_del n ob S)).
+Proof. intros K. exact (@mll_mask_is_deletion K). Qed.
+Print Assumptions c16_mll_mask_is_deletion.
+
+(* ... and the normalised values (divided by N_total resp. N_observed) agree after rescaling *)
+Theorem c16_mll_rescaled :
+  forall (K : Fld) (u cn ck : car), cn <> f0 -> ck <> f0 ->
+    fmul (fdiv u cn) cn = fmul (fdiv u ck) ck.
+Proof. intros K. exact (@mll_rescaled K). Qed.
+Print Assumptions c16_mll_rescaled.
+
+(* Gaussian expected_log_prob: under 'fill' the observed entries are the deleted data set's,
+   the missing entries are 0, for any fill value; hence the sums agree *)
+Theorem c16_elp_fill_pointwise :
+  forall (K : Fld) n half fv (y : nvec) m v s lg,
+    (forall a, a < nobs n (is_obs y) ->
+       elp_fill half fv y m v s lg (sel (obs_list n (is_obs y)) a) = elp_del n half y m v s lg a)
+    /\ (forall i, is_obs y i = false -> elp_fill half fv y m v s lg i = f0).
+Proof. intros K. exact (@elp_fill_pointwise K). Qed.
+Print Assumptions c16_elp_fill_pointwise.
+
+Theorem c16_elp_fill_sum_is_deletion :
+  forall (K : Fld) n half fv (y : nvec) m v s lg,
+    sum n (elp_fill half fv y m v s lg) = sum (nobs n (is_obs y)) (elp_del n half y m v s lg).
+Proof. intros K. exact (@elp_fill_sum_is_deletion K). Qed.
+Print Assumptions c16_elp_fill_sum_is_deletion.
+
+(* the hypotheses of the fill theorems are satisfiable (the refutation witness's data) *)
+Example ex_c16_fill_hypotheses :
+  exists Afinv : @M QcF,
+    is_inverse 2 (fill_kernel (is_obs wit_y) (train_covar wit_KJ wit_S)) Afinv /\
+    is_inverse (nobs 2 (is_obs wit_y))
+      (masked 2 2 (is_obs wit_y) (is_obs wit_y) (train_covar wit_KJ wit_S)) wit_Aoinv.
+Proof. exact ex_fill_hypotheses. Qed.
+Print Assumptions ex_c16_fill_hypotheses.
